@@ -6,7 +6,7 @@ VARIABLE done
 Init == /\ done = FALSE
         /\ PrintT("CASE " \o ToJson([kind |-> "universe",
               files |-> {[id |-> f, pkg |-> UFD0[f].pkg, syms |-> UFD0[f].syms, exts |-> UFD0[f].exts,
-                          deps |-> UFD0[f].deps] : f \in AllIds}]))
+                          deps |-> UFD0[f].deps, pad |-> UFD0[f].pad] : f \in AllIds}]))
 Next == done = FALSE /\ done' = TRUE
 Spec == Init /\ [][Next]_done
 =============================================================================
